@@ -45,6 +45,15 @@ CLAIMED = {
               "reshuffle immediately after coverage); random larger stores and a rule-based machine interleaving the public "
               "batch operations of the space-time generator extend it. Exhaustive for the small scope, sampled beyond.",
               "4/C09", note="reshuffle recognised from store order / key change; stores made of distinct points."),
+    "C13": _c("Hypothesis-generated E x U system specs against a numpy composition of single-network references; differential 1x1 vs plain loss",
+              "SystemLossODE / SystemLossPDE with any number of equations and unknowns, key names equal or different, weights "
+              "scalar / per-key dict / None / omitted, per-unknown constraints: dynamic term vs sum_e w_e mean residual^2 "
+              "with the documented (t, x, networks, parameters) argument order (equations use t and x asymmetrically), "
+              "every other term vs sum_u w_u * single-network reference; 1x1 system vs plain loss.", "4/C13"),
+    "C20": _c("Hypothesis-generated losses / generator states with deep argument snapshots; differential eager vs jit vs value_and_grad",
+              "Deep snapshots (structure, bytes of every leaf, copies of reachable dicts) of params, batch, loss and generator "
+              "before/after evaluate()/get_batch() must be identical; repeated calls bit-identical; eager vs jit vs primal of "
+              "value_and_grad within rtol 1e-9; get_batch eager vs jit exact.", "4/C20"),
     "C12": _c("Hypothesis-generated parameter batches / heterogeneity maps against a per-sample numpy loop",
               "Every term of single losses with any non-empty subset of batched keys vs per-sample reference; caller's "
               "parameters unchanged; heterogeneous keys replaced inside the dynamic term only; gradient w.r.t. an "
